@@ -396,7 +396,8 @@ Definition op_adds (o : op) : bool := match o with OAppend _ _ r => adds r | _ =
 Lemma rchange_step : forall s o, wf s -> cf_erase_late fx = true -> rchange (op_adds o) s (fst (step' s o)).
 Proof.
   intros s o W Fe. destruct o; cbn [step op_adds].
-  - (* create *) apply rc_of_same. unfold op_create. destruct (gen_next clock s) as [g s1] eqn:G.
+  - (* create *) apply rc_of_same. unfold op_create. destruct (cf_create_gen_in_tx fx && bad_create_name name); [apply same_rec_refl|].
+    destruct (gen_next clock s) as [g s1] eqn:G.
     pose proof (same_rec_gen_next _ _ _ _ G) as S1. destruct g as [v|]; [|assumption].
     repeat match goal with |- same_rec _ (fst (if ?b then _ else _)) => destruct b; cbn [fst]; [assumption|] end.
     eapply same_rec_trans; [exact S1|]. apply same_rec_add_all. apply (good_gen_next clock s _ s1 W G).
@@ -638,7 +639,8 @@ Lemma protected_create : forall s n r, recov_prefixed n = true ->
   snd (op_create fx c clock s n r) <> ResOk [] /\ (forall a, snd (op_create fx c clock s n r) <> ResOk a) /\
   s_mboxes (fst (op_create fx c clock s n r)) = s_mboxes s /\ s_hashes (fst (op_create fx c clock s n r)) = s_hashes s.
 Proof.
-  intros s n r P. unfold op_create. destruct (gen_next clock s) as [g s1] eqn:G. apply gen_next_db in G. destruct G as (A & _ & _ & B & _).
+  intros s n r P. unfold op_create. destruct (cf_create_gen_in_tx fx && bad_create_name n); [cbn [fst snd]; repeat split; try discriminate; reflexivity|].
+  destruct (gen_next clock s) as [g s1] eqn:G. apply gen_next_db in G. destruct G as (A & _ & _ & B & _).
   destruct g as [v|]; cbn [fst snd]; [|repeat split; try discriminate; assumption].
   destruct (lim_uidv c v); cbn [fst snd]; [repeat split; try discriminate; assumption|].
   rewrite P. cbn [orb fst snd]. repeat split; try discriminate; assumption.
